@@ -56,15 +56,15 @@ func init() {
 		},
 		Bounds: func(tier string) map[string]interface{} {
 			return map[string]interface{}{
-				"registry":   "ECI numbers -1000000 .. 999999 (free), all registered names and aliases",
-				"eci_parse":  "QR bit stream with an ECI designator whose 7 / 14 / 21 value bits are all free, followed by a two-byte byte-mode segment",
-				"symbolic":   "ISO-8859-1 hint with 1..4 (thorough 5) free characters in 0x20..0x7E / 0xA0..0xFF, masks 0..7, both name forms; valid UTF-8 text of 2..4 free bytes without hint (x/text codecs replaced by the validity-preserving models ModelEncode/DecodeLatin1/UTF8)",
-				"concrete":   "34 hint names x single-byte code points 0x20..0xFF (32-point window per name in the quick tier, all in thorough) through the real writer (real Reed-Solomon) and decoder; 15 decode-side hints x bytes 0x80..0xFF; Shift_JIS double-byte rows through Kanji mode: these runs are concrete executions inside the engine, not solver-decided",
+				"registry":  "ECI numbers -1000000 .. 999999 (free), all registered names and aliases",
+				"eci_parse": "QR bit stream with an ECI designator whose 7 / 14 / 21 value bits are all free, followed by a two-byte byte-mode segment",
+				"symbolic":  "ISO-8859-1 hint with 1..4 (thorough 5) free characters in 0x20..0x7E / 0xA0..0xFF, masks 0..7, both name forms; valid UTF-8 text of 2..4 free bytes without hint (x/text codecs replaced by the validity-preserving models ModelEncode/DecodeLatin1/UTF8)",
+				"concrete":  "34 hint names x single-byte code points 0x20..0xFF (32-point window per name in the quick tier, all in thorough) through the real writer (real Reed-Solomon) and decoder; 15 decode-side hints x bytes 0x80..0xFF; Shift_JIS double-byte rows through Kanji mode: these runs are concrete executions inside the engine, not solver-decided",
 			}
 		},
-		Exhaustive: func(tier string) bool { return false },
-		Outside:    []string{"double-byte ranges of GB18030, Big5, EUC-KR (the x/text tables are outside the encoded code; only their single-byte rows are exercised concretely); Shift_JIS double-byte rows other than lead bytes 81, 88, 9F, E0, EA, EB in the quick tier (all rows in thorough, concretely, through Kanji mode)", "the charset guess (StringUtils_guessCharset) beyond valid UTF-8 input and the Latin-1 cases above", "Data Matrix / Aztec ECI handling (C06 covers their totality)"},
-		Stubs:      []string{"generateECBytes / correctErrors stubbed in the symbolic tasks (qrStubs)", "golang.org/x/text codecs: native on concrete bytes; Latin-1 / UTF-8 / ASCII models on symbolic bytes"},
+		Exhaustive:  func(tier string) bool { return false },
+		Outside:     []string{"double-byte ranges of GB18030, Big5, EUC-KR (the x/text tables are outside the encoded code; only their single-byte rows are exercised concretely); Shift_JIS double-byte rows other than lead bytes 81, 88, 9F, E0, EA, EB in the quick tier (all rows in thorough, concretely, through Kanji mode)", "the charset guess (StringUtils_guessCharset) beyond valid UTF-8 input and the Latin-1 cases above", "Data Matrix / Aztec ECI handling (C06 covers their totality)"},
+		Stubs:       []string{"generateECBytes / correctErrors stubbed in the symbolic tasks (qrStubs)", "golang.org/x/text codecs: native on concrete bytes; Latin-1 / UTF-8 / ASCII models on symbolic bytes"},
 		Assumptions: commonAssumptions,
 	}
 }
